@@ -777,18 +777,21 @@ def migrate_v0_to_v1(old_config_dir, skip_confirm=False):
     try:
         os.makedirs(tally_dir, exist_ok=True)
 
+        # Move data and output directories first, config last. While ./config is still
+        # in place the budget is recognised as the old layout, so a migration that stops
+        # part-way is simply continued by running it again; moving config first would
+        # leave data/ behind with nothing able to pick it up.
+        for subdir in ['data', 'output']:
+            old_path = os.path.abspath(subdir)
+            new_path = os.path.join(tally_dir, subdir)
+            if os.path.isdir(old_path) and not os.path.exists(new_path):
+                print(f"  Moving {subdir}/ -> tally/{subdir}/")
+                shutil.move(old_path, new_path)
+
         # Move config directory
         new_config = os.path.join(tally_dir, 'config')
         print(f"  Moving config/ -> tally/config/")
         shutil.move(old_config_dir, new_config)
-
-        # Move data and output directories if they exist
-        for subdir in ['data', 'output']:
-            old_path = os.path.abspath(subdir)
-            if os.path.isdir(old_path):
-                new_path = os.path.join(tally_dir, subdir)
-                print(f"  Moving {subdir}/ -> tally/{subdir}/")
-                shutil.move(old_path, new_path)
 
         # Write schema version marker
         schema_file = os.path.join(new_config, '.tally-schema')
